@@ -37,6 +37,7 @@ def merge_stats(acc: dict, new: dict) -> dict:
 
 
 def _match_known(sig: str, findings):
+    sig = sig.replace(" ", "_")
     for ksig, text in findings:
         if sig == ksig or fnmatch.fnmatchcase(sig, ksig):
             return text
@@ -212,8 +213,8 @@ def main(argv=None) -> int:
     )
     brief = {k: v for k, v in stats.items() if not isinstance(v, (dict, list))}
     print(f"[{prop}] stats: {json.dumps(brief, sort_keys=True, default=str)[:1500]}")
-    for text, n in sorted(known_hits.items()):
-        print(f"KNOWN-FINDING: {text} (hit {n}x)")
+    for _ksig, text in findings:
+        print(f"KNOWN-FINDING: {text} (hit {known_hits.get(text, 0)}x in this run)")
     for path, v in reported:
         print(f"[{prop}] violation {v['sig']}: {v['msg'][:600]}")
         print(f"VIOLATION property={prop} replay={path}")
